@@ -1,9 +1,235 @@
-(** C32 — Subdomain and DNSLink addressing preserve content identity. *)
+(** C32 — Subdomain and DNSLink addressing preserve content identity.
+    This file contains ONLY the property theorems, each closed by [exact] of a
+    lemma proved in [proofs/P_C32.v], with [Print Assumptions] beneath it.
+    Model: [model/M_C32.v] (transcribed from gateway/hostname.go and tied to the
+    code by the correspondence check of ./check C32: the real NewHostnameHandler
+    behind net/http/httptest, a fake DNSLink backend, redirects followed).
+    Strings are [string] = lists of characters; what go-cid / peer / miekg-dns /
+    net/url answer enters through the oracle table [orc] that every theorem
+    quantifies over. *)
 From Coq Require Import List String Ascii Bool NArith Arith.
 From V Require Import lib.Verdict model.M_C32 proofs.P_C32.
 Import ListNotations.
 Open Scope string_scope.
 
+(** ---------- the string functions: all strings, no bound ---------- *)
+
+(** UninlineDNSLink undoes InlineDNSLink EXACTLY on the strings in which a '.' is
+    never followed by '.' or '-' ([rt_ok], M_C32.v): an equivalence,
+    so the condition is the weakest possible. *)
 Theorem C32_uninline_inline : forall s, uninline (inline s) = s <-> rt_ok s = true.
 Proof. exact uninline_inline_iff. Qed.
 Print Assumptions C32_uninline_inline.
+
+(** Every valid DNS name (labels separated by '.', each non-empty and neither
+    starting nor ending with '-'; any other characters, any length) is such a string. *)
+Theorem C32_uninline_inline_valid : forall s, valid_dns s = true -> uninline (inline s) = s.
+Proof. exact uninline_inline_valid. Qed.
+Print Assumptions C32_uninline_inline_valid.
+
+(** distinct names never share an inlined label *)
+Theorem C32_inline_injective : forall s1 s2,
+  rt_ok s1 = true -> rt_ok s2 = true -> inline s1 = inline s2 -> s1 = s2.
+Proof. exact inline_injective. Qed.
+Print Assumptions C32_inline_injective.
+
+(** the inlined form is a single label ... *)
+Theorem C32_inline_single_label : forall s, contains dot (inline s) = false.
+Proof. exact inline_no_dot. Qed.
+Print Assumptions C32_inline_single_label.
+
+(** ... of length |s| + number of '-' in s; InlineDNSLink returns it iff that is at
+    most 63, and fails exactly otherwise; toDNSLabel never returns more than 63. *)
+Theorem C32_label_fits :
+  (forall s, String.length (inline s) = String.length s + count dash s) /\
+  (forall s l, inline_checked s = Some l -> l = inline s /\ String.length l <= 63) /\
+  (forall s, inline_checked s = None <-> 63 < String.length s + count dash s) /\
+  (forall orc t c m l, to_dns_label orc t c m = LOk l -> String.length l <= 63).
+Proof.
+  exact (conj inline_length (conj inline_checked_some (conj inline_checked_none to_dns_label_fits))).
+Qed.
+Print Assumptions C32_label_fits.
+
+(** ---------- path -> subdomain URL (toSubdomainURL) ---------- *)
+
+(** CID / peer-id root, any table without duplicate keys, any host, any path that
+    SplitN takes apart as /ns/root/rest: the label of the redirect is a CIDv1 text of
+    the SAME multihash (libp2p-key codec in the peer namespaces) of at most 63
+    characters; namespace, remainder, query and fragment are carried over. *)
+Theorem C32_redirect_cid : forall orc, NoDup (map fst orc) ->
+  forall H path https inl q f p0 ns root rest codec m h host p q' f',
+  splitn4 path = Some (p0, ns, root, rest) ->
+  root_cid orc ns root = Some (codec, m) ->
+  to_subdomain_url flags_off orc H path https inl q f = SUUrl h host p q' f' ->
+  exists label b,
+    host = label ++ "." ++ ns ++ "." ++ H /\
+    enc orc (if is_peer_ns ns then libp2p_key else codec) m b = Some label /\
+    i_cid (info orc label) = Some (if is_peer_ns ns then libp2p_key else codec, m) /\
+    String.length label <= 63 /\ i_hostok (info orc label) = true /\
+    h = https /\ p = url_path rest /\ q' = q /\ f' = f.
+Proof. exact redirect_cid. Qed.
+Print Assumptions C32_redirect_cid.
+
+(** DNSLink name with a dot: the label is the name, or its inlined form (<= 63). *)
+Theorem C32_redirect_dnslink : forall orc H path https inl q f p0 n rest h host p q' f',
+  splitn4 path = Some (p0, "ipns", n, rest) ->
+  root_cid orc "ipns" n = None -> contains dot n = true ->
+  to_subdomain_url flags_off orc H path https inl q f = SUUrl h host p q' f' ->
+  exists label,
+    host = label ++ ".ipns." ++ H /\
+    (label = n \/
+     (label = inline n /\ String.length label <= 63 /\ has_record orc n = true /\ (inl || https)%bool = true)) /\
+    h = https /\ p = url_path rest /\ q' = q /\ f' = f.
+Proof. exact redirect_dnslink. Qed.
+Print Assumptions C32_redirect_dnslink.
+
+(** ---------- subdomain host -> path ---------- *)
+
+(** knownSubdomainDetails takes the host L.ns.G apart into exactly (G, ns, L) — L
+    may have several labels — when G is configured and no proper suffix of G's own
+    labels is configured as well. *)
+Theorem C32_subdomain_parse : forall cfg L ns G g,
+  is_sub_ns ns = true -> known cfg G = Some g ->
+  (forall j, 1 <= j < List.length (split dot G) -> known cfg (join "." (skipn j (split dot G))) = None) ->
+  known_subdomain_details cfg (L ++ "." ++ ns ++ "." ++ G) = Some (g, G, ns, L).
+Proof. exact ksd_parse. Qed.
+Print Assumptions C32_subdomain_parse.
+
+(** the inlined label of a valid FQDN with a DNSLink record is served as /ipns/<FQDN> *)
+Theorem C32_host_to_path_inlined : forall orc fl g gwhost n r,
+  g_sub g = true -> has_prefix ("/ipns/" ++ inline n) (g_paths g) = true ->
+  valid_dns n = true -> contains dot n = true ->
+  i_cid (info orc (inline n)) = None -> has_record orc n = true ->
+  handle_subdomain fl orc g gwhost "ipns" (inline n) r =
+  ONext KSub gwhost (("/ipns/" ++ n) ++ r_path r) (r_query r).
+Proof. exact host_to_path_inlined. Qed.
+Print Assumptions C32_host_to_path_inlined.
+
+(** ---------- C32_identity: path request -> redirect -> request for that URL -> path ---------- *)
+
+(** CID and peer-id roots, every gateway configuration in which G is an unambiguous
+    subdomain gateway for ns, every table: the path request is answered by a redirect
+    to L.ns.G where L is a dot-free text of at most 63 characters of the same
+    multihash, and the request a client then sends for that URL reaches the next
+    handler as /ns/L/rest with the same query (fragment kept in the redirect) — or the
+    request is refused because even the base36 text exceeds 63 characters. *)
+Theorem C32_identity_cid : forall cfg orc G ns g,
+  NoDup (map fst orc) -> is_sub_ns ns = true ->
+  known cfg G = Some g -> g_sub g = true ->
+  (forall x, has_prefix ("/" ++ ns ++ "/" ++ x) (g_paths g) = true) ->
+  (forall j, 1 <= j < List.length (split dot G) -> known cfg (join "." (skipn j (split dot G))) = None) ->
+  forall root rest https q f codec m,
+  cid_texts_clean cfg orc G ns ->
+  contains slash root = false ->
+  root_cid orc ns root = Some (codec, m) ->
+  let c' := if is_peer_ns ns then libp2p_key else codec in
+  match handler flags_off cfg orc
+          {| r_host := G; r_xhost := ""; r_https := https;
+             r_path := "/" ++ ns ++ "/" ++ root ++ "/" ++ rest; r_query := q; r_frag := f |} with
+  | ORedirect h host p q' f' =>
+      exists L,
+        host = L ++ "." ++ ns ++ "." ++ G /\ String.length L <= 63 /\ contains dot L = false /\
+        i_cid (info orc L) = Some (c', m) /\
+        h = https /\ p = url_path rest /\ q' = q /\ f' = f /\
+        handler flags_off cfg orc
+          {| r_host := host; r_xhost := ""; r_https := h; r_path := p; r_query := q'; r_frag := f' |} =
+        ONext KSub G (("/" ++ ns ++ "/" ++ L) ++ url_path rest) q
+  | OBadRequest => exists t36, enc orc c' m true = Some t36 /\ 63 < String.length t36
+  | OOther => exists b, enc orc c' m b = None          (* the table lacks an encoding *)
+  | _ => False
+  end.
+Proof. exact identity_cid. Qed.
+Print Assumptions C32_identity_cid.
+
+(** DNSLink names: a valid FQDN with a record goes to n.ipns.G or (https / inlining
+    gateway) to its single inlined label of at most 63 characters, and the request
+    for that URL reaches the next handler as /ipns/<the original FQDN>/rest — or the
+    request is refused because the inlined form exceeds 63 characters. *)
+Theorem C32_identity_dnslink : forall cfg orc G g,
+  known cfg G = Some g -> g_sub g = true ->
+  (forall x, has_prefix ("/ipns/" ++ x) (g_paths g) = true) ->
+  (forall j, 1 <= j < List.length (split dot G) -> known cfg (join "." (skipn j (split dot G))) = None) ->
+  forall n rest https q f,
+  valid_dns n = true -> contains dot n = true -> contains slash n = false ->
+  root_cid orc "ipns" n = None -> i_cid (info orc n) = None -> i_cid (info orc (inline n)) = None ->
+  has_record orc n = true ->
+  i_hostok (info orc n) = true -> i_hostok (info orc (inline n)) = true ->
+  known cfg (n ++ ".ipns." ++ G) = None -> known cfg (inline n ++ ".ipns." ++ G) = None ->
+  match handler flags_off cfg orc
+          {| r_host := G; r_xhost := ""; r_https := https;
+             r_path := "/ipns/" ++ n ++ "/" ++ rest; r_query := q; r_frag := f |} with
+  | ORedirect h host p q' f' =>
+      (host = n ++ ".ipns." ++ G \/
+       (host = inline n ++ ".ipns." ++ G /\ String.length (inline n) <= 63 /\ contains dot (inline n) = false)) /\
+      h = https /\ p = url_path rest /\ q' = q /\ f' = f /\
+      handler flags_off cfg orc
+        {| r_host := host; r_xhost := ""; r_https := h; r_path := p; r_query := q'; r_frag := f' |} =
+      ONext KSub G (("/ipns/" ++ n) ++ url_path rest) q
+  | OBadRequest => 63 < String.length n + count dash n
+  | _ => False
+  end.
+Proof.
+  intros cfg orc G g HG Hsub Hp Hsfx n rest https q f.
+  exact (identity_dnslink cfg orc G "ipns" g eq_refl HG Hsub Hp Hsfx n rest https q f eq_refl).
+Qed.
+Print Assumptions C32_identity_dnslink.
+
+(** ---------- the fragment (finding C32-1, repaired by fixes/C32-1.patch) ---------- *)
+(** With the defect switch on — toSubdomainURL as it was: only RawFragment copied — the
+    redirect for  dweb.link/ipfs/bafkqaaa/a?x=1#top  has no fragment and fails the
+    specification; the repaired model (switch off, used in all theorems above) meets it. *)
+Theorem C32_fragment_refuted :
+  handler flags_on cfg_ex orc_frag req_frag = ORedirect false "bafkqaaa.ipfs.dweb.link" "/a" "x=1" "" /\
+  spec_outcome orc_frag intent_frag (handler flags_on cfg_ex orc_frag req_frag) = false /\
+  spec_outcome orc_frag intent_frag (handler flags_off cfg_ex orc_frag req_frag) = true.
+Proof. exact fragment_refuted. Qed.
+Print Assumptions C32_fragment_refuted.
+
+(** ---------- non-vacuity ---------- *)
+Example C32_ex_strings :
+  valid_dns "en.wikipedia-on-ipfs.org" = true /\
+  inline "en.wikipedia-on-ipfs.org" = "en-wikipedia--on--ipfs-org" /\
+  uninline "en-wikipedia--on--ipfs-org" = "en.wikipedia-on-ipfs.org" /\
+  rt_ok "a-.b" = true /\ valid_dns "a-.b" = false /\      (* [rt_ok] is weaker than validity *)
+  uninline (inline "a.-b") = "a-.b".                       (* ... and necessary *)
+Proof. vm_compute. repeat split. Qed.
+
+(** the hypotheses of C32_identity_cid / C32_identity_dnslink hold for the gateway
+    dweb.link (paths /ipfs, /ipns; subdomains; inlining) and a table with a CIDv0, its
+    base32 form, a base36 libp2p-key form and a DNSLink name — and the conclusions are
+    the expected redirects *)
+Example C32_ex_identity_hyps :
+  NoDup (map fst orc_ex) /\ known cfg_ex "dweb.link" = Some gw_ex /\ g_sub gw_ex = true /\
+  (forall x, has_prefix ("/" ++ "ipfs" ++ "/" ++ x) (g_paths gw_ex) = true) /\
+  (forall x, has_prefix ("/ipns/" ++ x) (g_paths gw_ex) = true) /\
+  (forall j, 1 <= j < List.length (split dot "dweb.link") ->
+             known cfg_ex (join "." (skipn j (split dot "dweb.link"))) = None) /\
+  cid_texts_clean cfg_ex orc_ex "dweb.link" "ipfs" /\ cid_texts_clean cfg_ex orc_ex "dweb.link" "ipns" /\
+  root_cid orc_ex "ipfs" "Qm1" = Some (112, 1)%N /\ root_cid orc_ex "ipns" "Qm1" = Some (114, 1)%N /\
+  valid_dns "my.v-long.example.com" = true /\ root_cid orc_ex "ipns" "my.v-long.example.com" = None /\
+  has_record orc_ex "my.v-long.example.com" = true /\
+  known cfg_ex ("my.v-long.example.com" ++ ".ipns." ++ "dweb.link") = None /\
+  known cfg_ex (inline "my.v-long.example.com" ++ ".ipns." ++ "dweb.link") = None.
+Proof.
+  split; [exact ex_nodup|]. split; [reflexivity|]. split; [reflexivity|].
+  split; [intros x; apply (ex_paths "ipfs"); auto|].
+  split; [intros x; apply (ex_paths "ipns" x); auto|].
+  split; [exact ex_sfx|].
+  split; [apply ex_clean; auto|]. split; [apply ex_clean; auto|].
+  vm_compute. repeat split.
+Qed.
+
+Example C32_ex_identity_run :
+  handler flags_off cfg_ex orc_ex
+    {| r_host := "dweb.link"; r_xhost := ""; r_https := false; r_path := "/ipfs/Qm1/a b"; r_query := "x=1"; r_frag := "top" |}
+  = ORedirect false "bafy1.ipfs.dweb.link" "/a b" "x=1" "top" /\
+  handler flags_off cfg_ex orc_ex
+    {| r_host := "bafy1.ipfs.dweb.link"; r_xhost := ""; r_https := false; r_path := "/a b"; r_query := "x=1"; r_frag := "top" |}
+  = ONext KSub "dweb.link" "/ipfs/bafy1/a b" "x=1" /\
+  handler flags_off cfg_ex orc_ex
+    {| r_host := "dweb.link"; r_xhost := ""; r_https := true; r_path := "/ipns/my.v-long.example.com/p"; r_query := ""; r_frag := "" |}
+  = ORedirect true "my-v--long-example-com.ipns.dweb.link" "/p" "" "" /\
+  handler flags_off cfg_ex orc_ex
+    {| r_host := "my-v--long-example-com.ipns.dweb.link"; r_xhost := ""; r_https := true; r_path := "/p"; r_query := ""; r_frag := "" |}
+  = ONext KSub "dweb.link" "/ipns/my.v-long.example.com/p" "".
+Proof. vm_compute. repeat split. Qed.
